@@ -11,6 +11,7 @@ import (
 	"math/rand"
 	"os"
 	"path/filepath"
+	"strings"
 	"sync"
 	"sync/atomic"
 	"time"
@@ -251,7 +252,7 @@ func runPoolCase(c *checkCtx, cs poolCase) (res poolResult) {
 					}
 					select {
 					case <-probeRelease:
-					case <-time.After(300 * time.Millisecond):
+					case <-time.After(15 * time.Millisecond): // shorter than the rebuild interval: the teardown must have run before the pool is rebuilt
 					}
 				}
 			}
@@ -260,6 +261,7 @@ func runPoolCase(c *checkCtx, cs poolCase) (res poolResult) {
 		defer uninstallCtl()
 	}
 	var violMu sync.Mutex
+	var timeoutMu sync.Mutex
 	var nViol int32
 	violate := func(format string, a ...interface{}) {
 		atomic.AddInt32(&nViol, 1)
@@ -345,7 +347,13 @@ func runPoolCase(c *checkCtx, cs poolCase) (res poolResult) {
 		failWhy := ""
 		fail := func() {
 			atomic.AddInt64(&res.errors, 1)
-			if quiesced {
+			if quiesced && strings.Contains(failWhy, "i/o deadline reached") {
+				// a reply that does not come within 10 s on a live, open stream is a progress matter (C05/C11), not one of this
+				// property's statements about what the pool hands out; it is recorded, not judged here
+				timeoutMu.Lock()
+				res.inconcl = "a round trip in a quiesced phase timed out after 10 s on an open stream of a live session (" + failWhy + ")"
+				timeoutMu.Unlock()
+			} else if quiesced {
 				violate("round trip on a stream obtained in a quiesced phase failed at %s (stream %d open=%v state=%d sessionClosed=%v fallbackState=%v)",
 					failWhy, s.StreamID(), s.IsOpen(), s.getStreamState(), s.Session().IsClosed(), s.inFallbackState)
 			}
